@@ -256,11 +256,11 @@ CONDITIONS = [
 CONDITIONS.append(
     Cond(name="entities", fn="entities", params=[("first", "int"), ("a1", "int"), ("a2", "int"), ("rs", "int"), ("third", "bool"), ("received", "int")],
          pre=["0 <= first <= 1", "0 <= a1 < 5", "0 <= a2 < 5", "0 <= rs < %d" % len(RS), "0 <= received <= 3"],
-         partitions={"quick": [{"a1": a, "a2": a, "rs": a % len(RS)} for a in range(5)] + [{"a1": 2, "a2": 4, "rs": 1}],
-                     "thorough": [{"a1": a, "a2": b, "first": (a + b) % 2} for a in range(5) for b in range(5)]},
+         partitions={"quick": [{"a1": a, "a2": a, "rs": a % len(RS), "third": True} for a in range(5)] + [{"a1": 2, "a2": 4, "rs": 5, "third": True}],
+                     "thorough": [{"a1": a, "a2": b, "first": (a + b) % 2, "rs": (a + 2 * b) % len(RS)} for a in range(5) for b in range(5)]},
          timeout={"quick": 600, "thorough": 1200}, path_timeout=120,
          functions=["entity.Entity.apply_binding (HTTP-Redirect, sign=True)", "httpbase.HTTPBase.use_http_get", "pack.http_redirect_message", "sigver.verify_redirect_signature"],
-         bounds="two Saml2Client entities with distinct keys in one process signing one after the other (either order, optionally the first again), same or different algorithms; each entity may first have verified a redirect received from the other (own backend, peer's key); every URL is also verified by a neutral third backend"))
+         bounds="two Saml2Client entities with distinct keys in one process signing one after the other (either order, optionally the first again), same or different algorithms (quick: always with the first entity signing again); each entity may first have verified a redirect received from the other (own backend, peer's key); every URL is also verified by a neutral third backend"))
 
 ASSUMPTIONS = [
     "ideal signature scheme: cryptography.asymmetric.key_sign returns the (key, digest, message) triple, key_verify compares triples - the RSA mathematics are C code outside the claim",
